@@ -68,6 +68,12 @@ proof fn lemma_mask(x: u32, l: u8)
     lemma_lbm(l as nat);
 }
 
+// R12b: a DOCUMENTED panic ("# Panics: if src length doesn't match self length" / "if src_lg_k <= self.lg_config_k") is modelled as
+// 'returns only if the condition holds': the condition is a tagged POSTCONDITION (`*_validated`) instead of a precondition, so weakening
+// or removing the check is noticed.  Body = the original statement.  (The shims of these two kernels in unit hll_union keep the
+// conditions as `requires`, so their callers still have to establish them.)
+#[verifier::external_body] fn vx_documented_panic(c: bool) ensures c { assert!(c); }
+
 impl Array8 {
     spec fn k(&self) -> int { pow2(self.lg_config_k as nat) as int }
     spec fn shape(&self) -> bool { 4 <= self.lg_config_k <= 21 && self.bytes@.len() == self.k() }
@@ -83,12 +89,14 @@ impl Array8 {
         final(self).num_zeros == cnt0(final(self).regs(), final(self).k()), final(self).estimator.ooo() == old(self).estimator.ooo()
     { unimplemented!() }
 
-    fn merge_array_same_lgk ( & mut self , src : & [ u8 ] ) requires old ( self ) . shape ( ) , src @ . len ( ) == old ( self ) . regs ( ) . len ( ) ensures final ( self ) . wf ( ) , final ( self ) . lg ( ) == old ( self ) . lg ( ) ,
+    fn merge_array_same_lgk ( & mut self , src : & [ u8 ] ) requires old ( self ) . shape ( ) ensures final ( self ) . wf ( ) ,
+/*@C03.same_lgk.len_validated*/ src @ . len ( ) == old ( self ) . regs ( ) . len ( ) , final ( self ) . lg ( ) == old ( self ) . lg ( ) ,
 /*@C03.same_lgk.regs*/ final ( self ) . regs ( ) == pmax ( old ( self ) . regs ( ) , src @ ) ,
 /*@C03.flagflow.merged*/ final ( self ) . ooo ( ) , {
-assert! ( src . len ( ) == self . bytes . len ( ) ) ;
+vx_documented_panic ( src . len ( ) == self . bytes . len ( ) ) ;
 let mut vx_i1 = 0 ;
-while vx_i1 < src . len ( ) invariant self . lg_config_k == old ( self ) . lg_config_k , self . bytes @ . len ( ) == old ( self ) . bytes @ . len ( ) , src @ . len ( ) == self . bytes @ . len ( ) , 0 <= vx_i1 <= src . len ( ) , self . estimator == old ( self ) . estimator ,
+while vx_i1 < src . len ( ) invariant self . lg_config_k == old ( self ) . lg_config_k , self . bytes @ . len ( ) == old ( self ) . bytes @ . len ( ) ,
+/*@C03.same_lgk.len_validated*/ src @ . len ( ) == self . bytes @ . len ( ) , 0 <= vx_i1 <= src . len ( ) , self . estimator == old ( self ) . estimator ,
 /*@C03.same_lgk.regs*/ forall | j : int | 0 <= j < self . bytes @ . len ( ) ==> # [ trigger ] self . bytes @ [ j ] == ( if j < vx_i1 {
 max8 ( old ( self ) . bytes @ [ j ] , src @ [ j ] ) }
 else {
@@ -107,15 +115,18 @@ assert ( self . regs ( ) =~= pmax ( old ( self ) . regs ( ) , src @ ) ) ;
 }
 
 
-    fn merge_array_with_downsample ( & mut self , src : & [ u8 ] , src_lg_k : u8 ) requires old ( self ) . shape ( ) , old ( self ) . lg ( ) < src_lg_k <= 21 , src @ . len ( ) == pow2 ( src_lg_k as nat ) ensures final ( self ) . wf ( ) , final ( self ) . lg ( ) == old ( self ) . lg ( ) ,
+    fn merge_array_with_downsample ( & mut self , src : & [ u8 ] , src_lg_k : u8 ) requires old ( self ) . shape ( ) , src_lg_k <= 21 ensures final ( self ) . wf ( ) ,
+/*@C03.downsample.args_validated*/ old ( self ) . lg ( ) < src_lg_k && src @ . len ( ) == pow2 ( src_lg_k as nat ) , final ( self ) . lg ( ) == old ( self ) . lg ( ) ,
 /*@C03.downsample.regs*/ final ( self ) . regs ( ) == pmax ( old ( self ) . regs ( ) , fold ( src @ , old ( self ) . lg ( ) ) ) ,
 /*@C03.flagflow.merged*/ final ( self ) . ooo ( ) , {
 proof {
-lemma_k ( src_lg_k ) ;
 lemma_k ( self . lg_config_k ) ;
 }
-assert! ( src_lg_k > self . lg_config_k ) ;
-assert! ( src . len ( ) == 1 << src_lg_k ) ;
+vx_documented_panic ( src_lg_k > self . lg_config_k ) ;
+proof {
+lemma_k ( src_lg_k ) ;
+}
+vx_documented_panic ( src . len ( ) == 1 << src_lg_k ) ;
 let dst_mask = ( 1 << self . lg_config_k ) - 1 ;
 let mut vx_i1 = 0 ;
 while vx_i1 < src . len ( ) invariant self . lg_config_k == old ( self ) . lg_config_k , self . bytes @ . len ( ) == old ( self ) . bytes @ . len ( ) , old ( self ) . shape ( ) , 0 <= vx_i1 <= src . len ( ) , src @ . len ( ) <= 0x20_0000 , self . estimator == old ( self ) . estimator , dst_mask == ( ( 1u32 << self . lg_config_k ) - 1 ) as u32 ,
